@@ -472,6 +472,66 @@ def inst_assign_dask_value(vblocks=2):
                     unit="SetItem._layer + setitem_array_expr + ConcatenateArrayChunks._layer", api_replay=api)
 
 
+def inst_key_snapshot():
+    """x[key] = v records the assignment lazily: whatever the SetItem expression keeps of the key must be the key's value at
+    the time of the assignment -- not the caller's own mutable object (a dask collection that can be assigned to in place, an
+    ndarray, a list), or a later in-place change to the key would rewrite the earlier assignment to x"""
+    def body(E):
+        import builtins
+
+        import dask_array.io._from_array as FAm
+
+        from . import catalog
+
+        w = catalog.W(E)
+        for kind in ("dask-int", "ndarray", "list"):
+            x = catalog.source(w, E, "x" + kind[0], (2,), lo=2)
+            coll = w.fn(catalog.NC, "new_collection")(x.node)
+            if kind == "dask-int":
+                meta = np.empty((0,), dtype="i8")
+                node = w.space.make(FAm.FromArray, leaf("ix", (2,), dtype="i8"), ((2,),), _symx_attrs=dict(_meta=meta, chunks=((2,),), _name="ix"))
+                key = w.fn(catalog.NC, "new_collection")(node)
+            elif kind == "ndarray":
+                key = np.array([0, 1])
+            else:
+                key = [0, 1]
+            coll[key] = -1.0
+            held = [n for n in w.space.created
+                    if builtins.type(n).__dict__.get("_symx_real", builtins.type(n)).__name__ == "SetItem" and n.array is x.node]
+            E.ensure(f"{kind}-assignment-recorded", len(held) >= 1)
+            for n in held:
+                ix = n.index if isinstance(n.index, tuple) else (n.index,)
+                for k in ix:
+                    mine = k is key or (isinstance(k, np.ndarray) and isinstance(key, np.ndarray) and np.shares_memory(k, key))
+                    E.ensure(f"{kind}-key-is-a-snapshot-not-the-callers-object", not mine)
+
+    def api(values):
+        import dask_array as da
+
+        bad = []
+        x = da.from_array(np.arange(6), chunks=3)
+        idx = da.from_array(np.array([0, 1]), chunks=2)
+        x[idx] = -1
+        idx[0] = 4
+        if x.compute(scheduler="sync").tolist() != [-1, -1, 2, 3, 4, 5]:
+            bad.append("dask-int key")
+        x = da.from_array(np.arange(6), chunks=3)
+        k = np.array([0, 1])
+        x[k] = -5
+        k[0] = 5
+        if x.compute(scheduler="sync").tolist() != [-5, -5, 2, 3, 4, 5]:
+            bad.append("ndarray key")
+        x = da.from_array(np.arange(6), chunks=3)
+        k = [0, 1]
+        x[k] = -5
+        k[0] = 5
+        if x.compute(scheduler="sync").tolist() != [-5, -5, 2, 3, 4, 5]:
+            bad.append("list key")
+        return dict(ok=not bad, detail=f"x[key] = v; key[0] = other -- the earlier assignment moved with the key for: {bad}")
+
+    return Instance("setitem_key_is_snapshotted", body, {}, unit="Array.__setitem__ -> SetItem", api_replay=api)
+
+
 IDENTITY_SITE = "Array:identity-like-operation-returns-self"
 
 
@@ -543,7 +603,7 @@ def _program_instances(tier):
 
 def instances(tier):
     q = tier == "quick"
-    out = _program_instances(tier) + [inst_derived_keep_value(), inst_mask_assign_history(), inst_assign_dask_value(2), inst_assign_int_list((3, 3), (1, 2, 4)),
+    out = _program_instances(tier) + [inst_derived_keep_value(), inst_mask_assign_history(), inst_assign_dask_value(2), inst_key_snapshot(), inst_assign_int_list((3, 3), (1, 2, 4)),
                                       inst_assign_int_list((2, 2), (3, 0))]
     steps = [None, 1, 2, -1, -2] if q else [None, 1, 2, 3, -1, -2, -3]
     for m in ([1, 2, 3] if q else [1, 2, 3, 4]):
